@@ -823,6 +823,29 @@ impl<'a, 'ast> Visit<'ast> for Rw<'a> {
                     if let Some(&(end, tail)) = self.stmt_stack.last() {
                         self.calls.push((segs[n - 1].clone(), end, tail));
                     }
+                    // T6: Box::into_raw(b) -> (b);  Box::from_raw(p as *mut [T]) -> vx_box_assume_init(p)
+                    // (the raw pointer is modelled by the box it came from; the cast is MaybeUninit's assume_init)
+                    if n == 2 && segs[0] == "Box" && segs[1] == "into_raw" && c.args.len() == 1 {
+                        self.fire("T6.box_into_raw");
+                        self.ed.replace(self.r(c.func.span()), "", "T6.box_into_raw");
+                        self.visit_expr(&c.args[0]);
+                        return;
+                    }
+                    if n == 2 && segs[0] == "Box" && segs[1] == "from_raw" && c.args.len() == 1 {
+                        if let syn::Expr::Cast(ca) = &c.args[0] {
+                            let ty: String = self.src.slice(self.r(ca.ty.span())).split_whitespace().collect();
+                            if ty.starts_with("*mut[") {
+                                self.fire("T6.box_assume_init");
+                                self.ed.replace(self.r(c.func.span()), "vx_box_assume_init", "T6.box_assume_init");
+                                let inner = self.r(ca.expr.span());
+                                let whole = self.r(c.args[0].span());
+                                self.ed.replace((inner.1, whole.1), "", "T6.box_assume_init");
+                                self.visit_expr(&ca.expr);
+                                return;
+                            }
+                        }
+                        self.errors.push("Box::from_raw outside the rewrite table".into());
+                    }
                     // T1: Pin::new(e) / Pin::new_unchecked(e) -> (e)
                     if n >= 2 && segs[n - 2] == "Pin" && (segs[n - 1] == "new" || segs[n - 1] == "new_unchecked") && c.args.len() == 1 {
                         self.fire("T1.pin_new");
@@ -1631,6 +1654,7 @@ fn run(repo: &Path, verif: &Path, outp: &Path, mapp: &Path, probes: bool) -> Res
     let order = std::fs::read_to_string(verif.join("contracts/ORDER")).map_err(|e| format!("contracts/ORDER: {e}"))?;
     let mut out = Out::new();
     out.push("// GENERATED by vx-extract from /repo's working tree -- do not edit.\n", Origin::Gen);
+    out.push("#![feature(allocator_api)]\n", Origin::Gen);
     out.push("#![allow(unused_imports, unused_variables, unused_mut, dead_code, unused_parens, unused_braces, unreachable_code, unused_assignments)]\n", Origin::Gen);
     let mut probe_counter = 0usize;
     let mut probe_list: Vec<serde_json::Value> = vec![];
